@@ -9,7 +9,7 @@ from ..oracle import H, store_snapshot, walk_files
 RULE = (
     "case = (target tree with duplicates and empty files, or a single file; prior workspace = checkout of the target or of "
     "another tree with the *existing* link type, then kind-preserving user edits (add / modify / delete nested files, extra "
-    "directories); configured link type in {copy, hardlink, symlink, reflink->copy}; store class local/base; state on/off; old= "
+    "directories, hard links to files outside the cache, a partial file left under the copy primitive's temporary name by an interrupted checkout); configured link type in {copy, hardlink, symlink, reflink->copy}; store class local/base; state on/off; old= "
     "given or recomputed).  Sequence: forced checkout -> plain second checkout -> relinking checkout -> second relinking checkout. "
     "non-trivial = prior differs from target or existing link type differs from the configured one; distinct = (prior, target, "
     "existing type, configured type, configuration)"
@@ -22,7 +22,7 @@ ASSUMPTIONS = [
 ]
 MONITORS = ("independent walk + lstat/readlink/inode of the workspace; audit-hook recorder proving zero filesystem mutations in "
             "workspace and cache during the second checkout; byte snapshot of the cache; link record checked through get_unused_links")
-REQUIRED_COUNTERS = ["dir_removed_between_checkouts", "priors_with_foreign_hardlinks", "sequences", "second_checkouts_audited", "relinks_checked", "files_link_type_checked", "cache_snapshots_compared",
+REQUIRED_COUNTERS = ["priors_with_interrupted_copy_leftover", "dir_removed_between_checkouts", "priors_with_foreign_hardlinks", "sequences", "second_checkouts_audited", "relinks_checked", "files_link_type_checked", "cache_snapshots_compared",
                      "link_records_checked", "pair/copy->hardlink", "pair/hardlink->symlink", "pair/symlink->copy", "pair/copy->symlink",
                      "pair/hardlink->copy", "pair/symlink->hardlink", "store/local", "store/base", "single_file_cases"]
 
@@ -106,6 +106,16 @@ def run_shard(ctx):
                         foreign += 1
                 if foreign:
                     res.count("priors_with_foreign_hardlinks")
+            # the leftover of an interrupted copying checkout: a partial file under the temporary name the copy primitive uses
+            if not single and os.path.isdir(ws) and rng.random() < 0.12:
+                from dvc_objects.fs.utils import tmp_fname
+
+                lv = rng.choice(sorted({k[:-1] for k in prior_files if os.path.isdir(os.path.join(ws, *k[:-1]))} | {()}))
+                nm = tmp_fname("")  # as LocalFileSystem.put_file / copy names its partial file
+                with open(os.path.join(ws, *lv, nm), "wb") as f:
+                    f.write(b"partial copy")
+                prior_files[(*lv, nm)] = b"partial copy"
+                res.count("priors_with_interrupted_copy_leftover")
             cfg = {"store": cls, "existing": existing, "configured": configured, "state": use_state, "single": single,
                    "target": sorted("/".join(k) for k in T), "prior": sorted("/".join(k) for k in prior_files), "ext4": case % 9 == 4, "foreign_hardlinks": foreign}
             res.evaluated()
